@@ -251,6 +251,21 @@ CHECKS["C14"] = (
     "DESIGN.md §4 C14",
 )
 
+CHECKS["C06"] = (
+    "E-CH",
+    "CrossHair/z3-enumerated tampering positions (foreign key position x value kind, required key x removed/nulled) x five input channels on a real parser with required members at every nesting level; symbolic leaf ints in the baseline",
+    "Bounded model checking of the real validation code over tampering positions. One parser has required members at the top level, in a "
+    "group, in a dataclass field, in the init_args of a class argument, in the items of a list of dataclasses, in Optional and Dict "
+    "dataclass values and in a subcommand section. The solver picks where a foreign key is inserted (9 positions x 4 value kinds) or "
+    "which required key is removed or nulled (10 keys, incl. the required subcommand), and one of five channels (object, parse_string, "
+    "--cfg text, argv, environment); every tampered configuration must be rejected with ArgumentError and, for foreign keys, the "
+    "message must name the key; the untouched configuration parses for all (symbolic) leaf ints; parse_known_args refuses outside "
+    "callers. The path tree is exhausted; the solver's share is the position/kind/channel, leaf values of tampered configs are concrete "
+    "because the real message formatting is part of the assertion.",
+    "Trusted: the choice of parser shape. Outside: other shapes, empty mappings left behind by a removal (Optional[...] reads {} as None).",
+    "DESIGN.md §4 C06",
+)
+
 NOT_APPLICABLE = {
     "C13": "the resolver's only input is source code on disk (inspect.getsource/ast.parse/import); a symbolic program cannot be "
     "represented for that code and types/defaults are part of the program, so no dimension of the quantifier can be a solver variable",
